@@ -1,4 +1,5 @@
 import Rivaas.Spec.Contain
+import Rivaas.Model.RecoveryOpts
 import Rivaas.Model.TimeoutAsIs
 /-
 C10 — Panics and timeouts are contained.
@@ -959,5 +960,47 @@ example :
     shouldSkip (configure opts) "/x".toList = false ∧ skipFuncCalled (configure opts) "/x".toList = true ∧
     skipFuncCalled (configure opts) "/t".toList = false ∧ (configure opts).durationMs = 5 := by decide
 end TimeoutOptions
+
+/-! ## Part 4 — the options of the recovery middleware (`options.go`, `captureStack`) -/
+section RecoveryOptions
+open Rivaas.Recovery
+
+/-- `captureStack` never fails and never keeps more than there is, for every stack and every `int` given to
+    `WithStackSize` -/
+theorem capture_stack_total (len : Nat) (maxSize : Int) :
+    ∃ kept, captureStack len maxSize = some kept ∧ kept ≤ len ∧ (0 ≤ maxSize → (kept : Int) ≤ maxSize ∨ kept = len) := by
+  unfold captureStack
+  by_cases hneg : maxSize < 0
+  · simp only [hneg, if_true]
+    by_cases hl : (len : Int) > 0
+    · simp only [hl, if_true]
+      exact ⟨0, by simp, by omega, fun h => by omega⟩
+    · simp only [hl, if_false]
+      exact ⟨len, rfl, Nat.le_refl _, fun _ => Or.inr rfl⟩
+  · simp only [hneg, if_false]
+    by_cases hl : (len : Int) > maxSize
+    · simp only [hl, if_true]
+      refine ⟨maxSize.toNat, rfl, by omega, fun _ => Or.inl (by omega)⟩
+    · simp only [hl, if_false]
+      exact ⟨len, rfl, Nat.le_refl _, fun _ => Or.inr rfl⟩
+
+/-- **Recovery's own path cannot fail on configuration.** For every option list in every order and every stack
+    length, `handlePanic` gets from `c.Abort()` to the response handler. -/
+theorem recovery_options_reach_handler (opts : List Opt) (stackLen : Nat) :
+    reachesHandler (configure opts) stackLen = true := by
+  unfold reachesHandler
+  split
+  · obtain ⟨k, hk, _⟩ := capture_stack_total stackLen (configure opts).stackSize
+    simp [hk]
+  · rfl
+
+/-- K10e as shipped: `WithStackSize(-1)` with the default logging and stack traces — the slice expression panics
+    inside the deferred recover; the repaired code keeps nothing instead -/
+theorem asis_negative_stack_size_panics :
+    reachesHandlerAsIs (configure [.withStackSize (-1)]) 2048 = false ∧
+    reachesHandler (configure [.withStackSize (-1)]) 2048 = true ∧
+    captureStack 2048 (-1) = some 0 ∧ captureStack 2048 16 = some 16 ∧ captureStack 10 4096 = some 10 := by decide
+
+end RecoveryOptions
 
 end Rivaas.C10
